@@ -368,6 +368,24 @@ Proof.
     + rewrite Hpp. cbn [sep app skipn]. now apply split_sep_app.
 Qed.
 
+(* C13_parameters_applied_in_order: the parameters of the substituted type are
+   the converted parameters of THIS occurrence, in order; and the decision and
+   the path do not depend on them: another occurrence with the same crate, path
+   and requirement but other (convertible) parameters gets the same path with
+   ITS OWN parameters. *)
+Theorem parameters_applied_in_order : forall cs pol e rq p ps,
+  decide tp cs pol (ExtOk e (Some rq)) = Use p ps ->
+  x_params e = map Some ps
+  /\ forall ps' : list T, decide tp cs pol (ExtOk (X (x_crate e) (x_path e) (map Some ps')) (Some rq)) = Use p ps'.
+Proof.
+  intros cs pol e rq p ps Hd. apply decide_use_iff in Hd.
+  destruct Hd as [e' [rq' [rest [Hx [Hsw [Hp [Htp [Hps [Hpol Hpp]]]]]]]]].
+  injection Hx as <- <-. split; [exact Hps|].
+  intro ps'. apply decide_use_iff.
+  exists (X (x_crate e) (x_path e) (map Some ps')), rq, rest.
+  cbn [x_crate x_path x_params]. repeat split; assumption.
+Qed.
+
 (* a configured version decides by Cargo's documented semantics *)
 Theorem version_policy_is_cargo : forall cs pol e rq v rn,
   lookup cs (x_crate e) = Some (CS (CVVersion v) rn) ->
